@@ -4,7 +4,10 @@ use super::{
     header::{Header, Version},
     transition_rule::TransitionRule,
 };
-use crate::{local::cursor::Cursor, util::constants::BUG_MSG};
+use crate::{
+    local::cursor::Cursor,
+    util::constants::{BUG_MSG, SECS_PER_DAY},
+};
 
 /// TimeZone containing parsed TZif data
 #[derive(Debug, PartialEq)]
@@ -55,6 +58,11 @@ impl TimeZone {
                 }
             };
             let time_type_index = transition_type as usize;
+            if time_type_index >= header.type_count {
+                return Err(TimeZoneError::InvalidTzFile(
+                    "Transition refers to a local time type that doesn't exist",
+                ));
+            }
             transitions.push(Transition::new(transition_time, time_type_index));
         }
 
@@ -62,6 +70,11 @@ impl TimeZone {
 
         for local_time_type in data_block.local_time_types.chunks_exact(6) {
             let utoff = i32::from_be_bytes(local_time_type[0..4].try_into().expect(BUG_MSG));
+            if utoff <= -(SECS_PER_DAY as i32) || utoff >= SECS_PER_DAY as i32 {
+                return Err(TimeZoneError::InvalidTzFile(
+                    "UTC offset of a local time type has to be smaller than 24 hours",
+                ));
+            }
             let dst = local_time_type[4] != 0;
             local_time_types.push(LocalTimeType::new(utoff, dst));
         }
